@@ -1612,3 +1612,57 @@ Lemma unguarded_transformer_loses_read_error :
   let r := mkResp true 200 None None false false ENone in
   to_bytes_unguarded b r = (set_cached true r, None) /\ to_bytes b r = (set_cached true (set_err (Some 7) r), Some 7).
 Proof. vm_compute. split; reflexivity. Qed.
+
+(* ---------- the request-level error target's failure stands ---------- *)
+
+Definition with_um_com (u : option err) (b : body_oracle) : body_oracle :=
+  mkBody (b_read b) (b_tf b) (b_um_res b) (b_um_req b) u (b_write b) (b_close b).
+
+(* with a request-level error target the client-level type is never consulted: when the body does
+   not unmarshal into the request's target, that failure is the step's error and nothing is bound -
+   for EVERY outcome the client-level type's decoder would have had *)
+Lemma request_target_failure_stands : forall tg b r x u,
+  t_error tg = true -> r_present r = true -> result_state r = ErrorState -> r_status r <> no_content ->
+  body_ok b r -> b_um_req b = Some x ->
+  snd (parse_response_body tg (with_um_com u b) r) = Some x /\
+  r_error (fst (parse_response_body tg (with_um_com u b) r)) = r_error r /\
+  r_result (fst (parse_response_body tg (with_um_com u b) r)) = r_result r.
+Proof.
+  intros tg b r x u T P S N B U.
+  assert (applicable tg r = Some BReq) as A.
+  { apply (applicable_err tg r BReq); [discriminate|]. repeat split; auto. }
+  assert (body_ok (with_um_com u b) r) as B' by exact B.
+  destruct (unmarshal_failure_surfaces tg (with_um_com u b) r BReq x A B' U) as (X1 & X2 & X3). auto.
+Qed.
+
+(* and when it does unmarshal, it is the request's target that is bound, whatever the client-level type *)
+Lemma request_target_shadows_for_every_common_outcome : forall tg b r u,
+  t_error tg = true -> r_present r = true -> result_state r = ErrorState -> r_status r <> no_content ->
+  body_ok b r -> b_um_req b = None -> r_error r = ENone ->
+  r_error (fst (parse_response_body tg (with_um_com u b) r)) = EReq.
+Proof.
+  intros tg b r u T P S N B U E0.
+  destruct (error_result_iff tg (with_um_com u b) r E0) as [[_ K] _]. apply K. repeat split; auto; apply B.
+Qed.
+
+(* the flattened error branch of the seeded change c-m3 (`if r.error != nil || commonErrorType == nil
+   { return }` between the two steps) lets the client-level type overwrite the request target's failure *)
+Definition parse_error_branch_flattened (tg : targets) (b : body_oracle) (r : response) : response * option err :=
+  let '(r1, e1) := if t_error tg then
+                     let '(r1, e) := unmarshal_body b (b_um_req b) r in
+                     match e with None => (set_error EReq r1, None) | Some x => (r1, Some x) end
+                   else (r, None) in
+  match r_error r1 with
+  | ENone => if t_common tg then
+               let '(r2, e) := unmarshal_body b (b_um_com b) r1 in
+               match e with None => (set_error ECommon r2, None) | Some x => (r2, Some x) end
+             else (r1, e1)
+  | _ => (r1, e1)
+  end.
+
+Lemma flattened_branch_overwrites_failure :
+  let tg := mkTargets false true true in
+  let b := mkBody None None None (Some 7) None None None in
+  let r := mkResp true 500 None None true false ENone in
+  parse_error_branch_flattened tg b r = (set_error ECommon r, None) /\ parse_response_body tg b r = (r, Some 7).
+Proof. vm_compute. split; reflexivity. Qed.
